@@ -94,6 +94,17 @@ def oracle(ctx, seeds=None):
             res.fail('order/%s%s' % (name, ':' + lim if lim else ''), "observed order %.2f < design order %d (L1 errors %r, %s, a=%r k=%d)" % (obs, expected, errs, integ, a, k), rp)
         if name not in ('extrapol3', 'muscl') and name != 'extrapol1' and obs > expected + 0.8:
             res.count('super-convergent-' + name)
+    # ---- every limiter at small and large amplitudes (scale invariance of linear convection: absolute thresholds in a limiter show here)
+    for lim, amp in [('vanalbada', 1e-4), ('vanleer', 1e-4), ('vanalbada', 1e-7), ('vanleer', 1e-7), ('minmod', 1e-7), ('superbee', 1e5)]:
+        a = float(rng.choice([1.0, -1.0])); phase = float(rng.uniform(0, 2 * np.pi))
+        ok, errs = impl.guarded(lambda: [conv_error(impl.xnum.muscl(getattr(impl.xnum, lim)), 'rk3ssp', n, a, 1, phase, 0.3, 0.0, amp) for n in (40, 80, 160)])
+        res.case(('order-amplitude', lim, amp))
+        rp = dict(kind='order', scheme='muscl', limiter=lim, integrator='rk3ssp', a=a, k=1, phase=phase, x0=0.0, amplitude=amp)
+        if not ok:
+            res.fail('order/muscl:raised', errs, rp); continue
+        obs = float(np.log2(errs[1] / errs[2])) if errs[2] > 0 and all(np.isfinite(errs)) else -9.9
+        if obs < 2 - 0.9:
+            res.fail('order/muscl:%s' % lim, "observed order %.2f < design order 2 at amplitude %g (L1 errors relative to the amplitude %r, a=%r)" % (obs, amp, errs, a), rp)
     # ---- the non-uniform mesh classes: the first- and second-order schemes still converge (error decreasing, order >= ~1)
     for meshcls in ('refined', 'morphed'):
         for name in ('extrapol1', 'extrapol2'):
